@@ -9,14 +9,42 @@ import os
 import sys
 
 
+def session(rec):
+    """Re-execute every run of the worker session up to the failing seed, in order."""
+    from . import boot  # noqa: F401
+    from . import core
+    from .oracles import get_oracle
+    import json as _json
+
+    cls = get_oracle(rec["property"])
+    ss = rec["session"]
+    res = None
+    for k in range(ss["k"] + 1):
+        res = core.simulate(cls, ss["seed0"] + ss["offset"] + k * ss["stride"])
+    v = res.violation
+    if v is None:
+        print("REPLAY(session) property=%s seed=%s: no violation" % (rec["property"], rec["seed"]))
+        return 0
+    same = v.signature == rec["signature"]
+    print("REPLAY(session of %d runs) property=%s seed=%s signature=%s same_as_recorded=%s" % (
+        ss["k"] + 1, rec["property"], rec["seed"], _json.dumps(v.signature), same))
+    return 1
+
+
 def main(argv):
+    want_session = False
+    if argv and argv[0] == "--session":
+        want_session = True
+        argv = argv[1:]
     path = argv[0]
     with open(path) as f:
         rec = json.load(f)
     want = str(rec.get("hashseed", "0"))
     if os.environ.get("PYTHONHASHSEED") != want and want != "random":
         env = dict(os.environ, PYTHONHASHSEED=want)
-        os.execve(sys.executable, [sys.executable, "-m", "provsim.replay", path], env)
+        os.execve(sys.executable, [sys.executable, "-m", "provsim.replay"] + (["--session"] if want_session else []) + [path], env)
+    if want_session:
+        return session(rec)
     from . import boot  # noqa: F401
     from . import core
     from .oracles import get_oracle
